@@ -28,13 +28,19 @@ type fnPrint struct {
 	Sig     string   `json:"sig"`
 	Callees []string `json:"callees,omitempty"`
 	Fields  []string `json:"fields,omitempty"`
-	Consts  []string `json:"consts,omitempty"`
-	NInstr  int      `json:"n"`
+	// FieldTypes: the same accesses as "struct:type of the field" (a field may be renamed in the same change)
+	FieldTypes []string `json:"field_types,omitempty"`
+	Consts     []string `json:"consts,omitempty"`
+	NInstr     int      `json:"n"`
 }
 
 type fieldPrint struct {
 	Type  string   `json:"type"`
 	Users []string `json:"users"`
+	// UserSigs: receiver and signature of every user (robust when users are renamed too)
+	UserSigs []string `json:"user_sigs,omitempty"`
+	// Index: position of the field in its struct (tie-break when several same-typed fields are renamed at once)
+	Index int `json:"index"`
 }
 
 type baselineDoc struct {
@@ -80,7 +86,7 @@ func fingerprintOf(fn *ssa.Function) fnPrint {
 		// signature string without receiver
 		fp.Sig = shortType(types.NewSignatureType(nil, nil, nil, fn.Signature.Params(), fn.Signature.Results(), fn.Signature.Variadic()))
 	}
-	callees, fields, consts := map[string]bool{}, map[string]bool{}, map[string]bool{}
+	callees, fields, consts, ftypes := map[string]bool{}, map[string]bool{}, map[string]bool{}, map[string]bool{}
 	var walk func(f *ssa.Function)
 	walk = func(f *ssa.Function) {
 		for _, b := range f.Blocks {
@@ -97,6 +103,7 @@ func fingerprintOf(fn *ssa.Function) fnPrint {
 				case *ssa.FieldAddr:
 					if fv := fieldOfAddr(x); fv != nil {
 						fields[shortType(deref(x.X.Type()))+"."+fv.Name()] = true
+						ftypes[shortType(deref(x.X.Type()))+":"+shortType(fv.Type())] = true
 					}
 				}
 				var ops []*ssa.Value
@@ -123,6 +130,10 @@ func fingerprintOf(fn *ssa.Function) fnPrint {
 	for k := range consts {
 		fp.Consts = append(fp.Consts, k)
 	}
+	for k := range ftypes {
+		fp.FieldTypes = append(fp.FieldTypes, k)
+	}
+	sort.Strings(fp.FieldTypes)
 	sort.Strings(fp.Callees)
 	sort.Strings(fp.Fields)
 	sort.Strings(fp.Consts)
@@ -147,8 +158,18 @@ func jaccard(a, b []string) (inter, union int) {
 }
 
 func similarity(a, b fnPrint) float64 {
+	s := similarityBy(a, b, a.Fields, b.Fields)
+	if len(a.FieldTypes) > 0 {
+		if s2 := similarityBy(a, b, a.FieldTypes, b.FieldTypes); s2 > s {
+			s = s2
+		}
+	}
+	return s
+}
+
+func similarityBy(a, b fnPrint, fa, fb []string) float64 {
 	i1, u1 := jaccard(a.Callees, b.Callees)
-	i2, u2 := jaccard(a.Fields, b.Fields)
+	i2, u2 := jaccard(fa, fb)
 	i3, u3 := jaccard(a.Consts, b.Consts)
 	u := u1 + u2 + u3
 	if u == 0 {
@@ -253,11 +274,31 @@ func (P *Prog) fieldUsers(f *types.Var) []string {
 	return out
 }
 
+func (P *Prog) fieldUserSigs(f *types.Var) []string {
+	m := map[*ssa.Function]bool{}
+	for _, a := range P.accessesOf(f) {
+		m[outer(a.Fn)] = true
+	}
+	var sigs []string
+	for fn := range m {
+		sigs = append(sigs, shortType(fn.Signature))
+	}
+	sort.Strings(sigs)
+	// a multiset: the k-th user with the same signature is "sig'k"
+	count := map[string]int{}
+	var out []string
+	for _, s := range sigs {
+		count[s]++
+		out = append(out, fmt.Sprintf("%s'%d", s, count[s]))
+	}
+	return out
+}
+
 func (P *Prog) noteField(rel, typ string, path []string, f *types.Var) {
 	if !recordBase || f == nil {
 		return
 	}
-	fp := fieldPrint{Type: shortType(f.Type()), Users: P.fieldUsers(f)}
+	fp := fieldPrint{Type: shortType(f.Type()), Users: P.fieldUsers(f), UserSigs: P.fieldUserSigs(f), Index: fieldIndex(f)}
 	baseMu.Lock()
 	recorded.Fields[fieldKey(rel, typ, path)] = fp
 	baseMu.Unlock()
@@ -287,6 +328,12 @@ func (P *Prog) renamedField(rel, typ string, path []string, st *types.Struct) *t
 		if u2 > 0 {
 			s = float64(i2) / float64(u2)
 		}
+		if len(base.UserSigs) > 0 {
+			// the users may have been renamed in the same change: compare them by receiver and signature too
+			if i3, u3 := jaccard(base.UserSigs, P.fieldUserSigs(f)); u3 > 0 && float64(i3)/float64(u3) > s {
+				s = float64(i3) / float64(u3)
+			}
+		}
 		if s > best {
 			second, best, bestF = best, s, f
 		} else if s > second {
@@ -299,7 +346,60 @@ func (P *Prog) renamedField(rel, typ string, path []string, st *types.Struct) *t
 		baseMu.Unlock()
 		return bestF
 	}
+	// several same-typed fields with the same users were renamed together: keep declaration order
+	if bestF != nil && best >= 0.6 {
+		var cands []*types.Var
+		for i := 0; i < st.NumFields(); i++ {
+			f := st.Field(i)
+			p2 := append(append([]string{}, path[:len(path)-1]...), f.Name())
+			if _, known := loadBaseline().Fields[fieldKey(rel, typ, p2)]; !known && shortType(f.Type()) == base.Type {
+				cands = append(cands, f)
+			}
+		}
+		type miss struct {
+			key string
+			idx int
+		}
+		var missing []miss
+		prefix := fieldKey(rel, typ, path[:len(path)-1])
+		if len(path) == 1 {
+			prefix = rel + "." + typ + "."
+		} else {
+			prefix += "."
+		}
+		for k, fp := range loadBaseline().Fields {
+			if !strings.HasPrefix(k, prefix) || strings.Contains(k[len(prefix):], ".") || fp.Type != base.Type {
+				continue
+			}
+			name := k[len(prefix):]
+			present := false
+			for i := 0; i < st.NumFields(); i++ {
+				if st.Field(i).Name() == name {
+					present = true
+				}
+			}
+			if !present {
+				missing = append(missing, miss{k, fp.Index})
+			}
+		}
+		if len(cands) == len(missing) && len(cands) > 1 {
+			sort.Slice(missing, func(i, j int) bool { return missing[i].idx < missing[j].idx })
+			for i, m := range missing {
+				if m.key == fieldKey(rel, typ, path) {
+					baseMu.Lock()
+					renamesSeen = append(renamesSeen, fmt.Sprintf("field %s → %s (same users, declaration order among %d renamed fields)", m.key, cands[i].Name(), len(cands)))
+					baseMu.Unlock()
+					return cands[i]
+				}
+			}
+		}
+	}
 	return nil
+}
+
+func fieldIndex(f *types.Var) int {
+	// only the relative order among the fields of one struct is used
+	return int(f.Pos())
 }
 
 func writeRecordedBaseline(verif string, inventory []string) error {
